@@ -8,6 +8,7 @@ import Bita.Proofs.Http
 import Bita.Proofs.IoReader
 import Bita.Proofs.ReaderEnv
 import Bita.Proofs.Reuse
+import Bita.Proofs.HttpBounds
 
 namespace Bita.Props.C08
 open Bita Bita.Spec
@@ -84,6 +85,17 @@ theorem http_read_at_requests (serve : Nat → Nat → Bytes) (retry offset size
     (∀ q ∈ (httpReadAt serve retry offset size script).2, q = (offset, size)) ∧
     (httpReadAt serve retry offset size script).2.length ≤ retry + 1 :=
   Proofs.http_read_at_requests serve retry offset size script
+
+/-- **Never shifted by what a server adds.**  A server that appends anything at all to every answer
+yields exactly the stream and the requests of the server that sends the requested bytes only: no
+surplus is delivered, and none leaks into the next run (the fragment truncation is in the source:
+`Gen.httpFragmentClipped`). -/
+theorem http_surplus_irrelevant (data : Bytes) (extra : Nat → Nat → Bytes) (retry : Nat)
+    (script : List Resp) (chunks : List ChunkOffset)
+    (hsize : ∀ c ∈ chunks, 1 ≤ c.size) (hin : ∀ c ∈ chunks, c.stop ≤ data.length) :
+    httpReadChunks (fun off size => slice data off size ++ extra off size) retry script chunks =
+      httpReadChunks (fun off size => slice data off size) retry script chunks :=
+  Proofs.http_surplus_irrelevant data extra retry script chunks hsize hin
 
 /-! Non-vacuity: a run of two chunks failing three times (budget 3), resumed at +3 and +5. -/
 example :
